@@ -509,7 +509,7 @@ func (env *SpecEnv) call(e *SExpr) SpecVal {
 				env.fail("has() on non-map")
 			}
 			ks := x.tm.SortOf(mt.Key())
-			hd := x.get(env.state(), mapDomKey(ks), ArrSort(SRef, ArrSort(ks, SBool)))
+			hd := x.get(env.state(), mapDomKey(ks, x.tm.SortOf(mt.Elem())), ArrSort(SRef, ArrSort(ks, SBool)))
 			return SpecVal{t: Sel(Sel(hd, m.t), x.coerce(k.t, mt.Key())), typ: tBool}
 		case "allocated":
 			v := env.eval(args[0])
